@@ -310,9 +310,16 @@ class DirectCalendar(IWorkCalendar):
             units: Optional[Dict[datetime, float]] = None
     ):
         if units is not None:
-            self.__units = {_day_start(k): v for k, v in units.items()}
+            self.__units = DirectCalendar.__prepare_units(units)
         else:
             self.__units = {}
+
+    @staticmethod
+    def __prepare_units(units: Dict[datetime, float]) -> Dict[datetime, float]:
+        for v in units.values():
+            if v < 0:
+                raise RuntimeError("Value must be >= 0")
+        return {_day_start(k): v for k, v in units.items()}
 
     def get_available_units(self, date: datetime) -> Optional[float]:
         key = _day_start(date)
@@ -322,7 +329,7 @@ class DirectCalendar(IWorkCalendar):
             return None
 
     def set_units(self, units: Dict[datetime, float]):
-        self.__units = self.__units | units
+        self.__units = self.__units | DirectCalendar.__prepare_units(units)
 
     @property
     def dates(self):
